@@ -232,6 +232,13 @@ loop:
 				outs = append(outs, l[2:])
 			case strings.HasPrefix(l, "#c "):
 				counts = append(counts, l[3:])
+			case strings.HasPrefix(l, "#unsettled "):
+				// the op line becomes `tick unsettled`: the model then answers `managed` with n/a as well (the
+				// ops slice is the one the framework writes to ops.txt)
+				if i, err := strconv.Atoi(l[11:]); err == nil && i >= 0 && i < len(c.Ops) && c.Ops[i] == "tick" {
+					c.Ops[i] = "tick unsettled"
+					o.Count("tick-unsettled")
+				}
 			case l == "#nt":
 				nontrivial = true
 			case l == "#restart":
@@ -310,6 +317,9 @@ func childLoop() {
 		}
 		for _, k := range st.counts {
 			fmt.Fprintf(out, "#c %s\n", k)
+		}
+		for _, i := range st.unsettled {
+			fmt.Fprintf(out, "#unsettled %d\n", i)
 		}
 		if st.nontrivial {
 			out.WriteString("#nt\n")
